@@ -219,6 +219,8 @@ def run(run):
     s.add(S.C.cons)
     s.add(S.C.dom)
     run.witness('constraint set satisfiable', s.check() == z3.sat)
+    rep.selfcheck(PROP, [{'check': 'H', 'point': pt, 'params': {'wa': wa, 'rates': rt, 'cls': c}} for wa in (True, False) for rt in (True, False) for c in CLASSES for pt in rep.points(1 if run.tier == 'quick' else 5)] +
+                  [{'check': 'sim', 'point': pt} for pt in rep.points(2)] + [{'check': 'sequence', 'point': {}, 'params': {'wa': True, 'rates': True, 'cls': c}} for c in CLASSES])
     for can in CANARIES:
         name = can[0]
         try:
